@@ -59,6 +59,7 @@ type task struct {
 	idle                bool        // waits for "nobody else can run"
 	prio                int64
 	holdTil             int64
+	stallTil            int64 // stalled-task fault: not chosen before this step unless nothing else can run
 	system              bool // spawned by rewritten code (not by the harness)
 	firstStep, lastStep int64
 	parent              int
@@ -118,6 +119,10 @@ type World struct {
 	schedHash      uint64
 	Probes         map[string]int64
 	TagNext        string // tag given to tasks spawned while set (harness use)
+	// StallHook (harness): called at every function entry instrumented by the rewriter with the
+	// function's name; a result n > 0 stalls the running task for n scheduler steps (fault kind
+	// "stalled thread": descheduled for long at an arbitrary point; other tasks keep running)
+	StallHook func(site string) int64
 }
 
 var cur *World
@@ -367,12 +372,17 @@ func (w *World) nextTimerAt() (int64, bool) {
 // candidates returns the tasks that can run now: the current task first (if it can), then by id.
 func (w *World) candidates(self *task) []*task {
 	var cands []*task
+	var stalled []*task
 	selfReady := false
 	for _, t := range w.tasks {
 		if t.done || t.idle {
 			continue
 		}
 		if t.ready != nil && !t.ready() {
+			continue
+		}
+		if t.stallTil > w.step {
+			stalled = append(stalled, t)
 			continue
 		}
 		if t == self {
@@ -383,6 +393,18 @@ func (w *World) candidates(self *task) []*task {
 	}
 	if selfReady {
 		cands = append([]*task{self}, cands...)
+	}
+	if len(cands) == 0 && len(stalled) > 0 {
+		// nobody else can run: the stall ends early (a stall must never turn into a deadlock)
+		for _, t := range stalled {
+			t.stallTil = 0
+			if t == self {
+				cands = append([]*task{t}, cands...)
+			} else {
+				cands = append(cands, t)
+			}
+		}
+		return cands
 	}
 	if len(cands) == 0 {
 		for _, t := range w.tasks {
@@ -561,13 +583,37 @@ func (w *World) GoHarness(name string, f func()) {
 	go w.taskMain(t, f, false)
 }
 
-// Yield is inserted at function entries of package store by the rewriter.
-func Yield() {
+// YieldFn is inserted at function entries of package store by the rewriter. It is the site of
+// the stalled-thread fault (in every world that installs a StallHook) and, in worlds with
+// function-entry granularity, an ordinary scheduling point.
+func YieldFn(site string) {
 	w := cur
-	if w == nil || !w.Cfg.FuncYield || w.dead {
+	if w == nil || w.dead {
+		return
+	}
+	if w.StallHook != nil && w.cur != nil {
+		if n := w.StallHook(site); n > 0 {
+			w.cur.stallTil = w.step + n
+			w.Probes["fault:thread-stalled"]++
+			w.yield("stall:" + site)
+			return
+		}
+	}
+	if !w.Cfg.FuncYield {
 		return
 	}
 	w.yield("func")
+}
+
+// Yield: function-entry scheduling point without a site name (kept for older scratch trees).
+func Yield() { YieldFn("") }
+
+// CurName returns the name of the running task.
+func (w *World) CurName() string {
+	if w.cur == nil {
+		return ""
+	}
+	return w.cur.name
 }
 
 // HarnessYield is an explicit scheduling point for harness tasks.
